@@ -266,6 +266,23 @@ func c01aSite(p c01aParam) string {
 	return "reader-workers/" + p.Format
 }
 
+// c01aExplore = vsched.Explore, except that a failure of the engine's self check "the same schedule run twice gives the same
+// trace and the same verdict" (a panic of the engine; it never fails on the pinned tree) is returned instead of ending
+// the shard: a tree whose behaviour depends on what earlier executions left behind (package-level state: a counter, a
+// cache, a sync.Once) is reported as a violation (control-run/not-deterministic) and the job is given up.
+func c01aExplore(cfg vsched.Config, body func(x *vsched.Exec)) (st *vsched.Stats, diverged string) {
+	defer func() {
+		if e := recover(); e != nil {
+			if s, ok := e.(string); ok && strings.HasPrefix(s, "vsched: replay of a") {
+				st, diverged = &vsched.Stats{Outcomes: map[string]int64{}, TraceHashes: map[uint64]struct{}{}}, s
+				return
+			}
+			panic(e)
+		}
+	}()
+	return vsched.Explore(cfg, body), ""
+}
+
 func TestVerifC01A(t *testing.T) {
 	log.SetOutput(io.Discard)
 	log.StandardLogger().ExitFunc = vsched.Exit
@@ -408,13 +425,19 @@ func TestVerifC01A(t *testing.T) {
 		}
 		cfg := vsched.Config{Name: p.Format, Preemptions: p.Bound, DelayBounding: p.Mode == "delay", Full: p.Mode == "full",
 			Policy: p.Policy, Horizon: 20000, MaxExec: 150000, Expired: r.Expired, Check: check(p, recs)}
-		st := vsched.Explore(cfg, func(x *vsched.Exec) { x.Obs = c01aBody(p, data) })
+		st, div := c01aExplore(cfg, func(x *vsched.Exec) { x.Obs = c01aBody(p, data) })
+		if div != "" {
+			r.Violate(c01aSite(p)+"/control-run/not-deterministic", fmt.Sprintf("%s nrec=%d buffer=%d workers=%d fullfilebatch=%v mode=%s policy=%d: %s", p.Format, p.NRec, p.Buf, p.Workers, p.FullBatch, p.Mode, p.Policy, div), p)
+			r.Cap(fmt.Sprintf("exploration of %s nrec=%d workers=%d mode=%s given up: the same schedule does not give the same execution twice", p.Format, p.NRec, p.Workers, p.Mode))
+			continue
+		}
 		r.Eval(st.Executions)
 		r.Trace(st.Executions)
 		r.Trans(st.Points)
 		r.Replayed(st.ReplaysChecked)
 		r.Count("hb_states", st.States)
 		r.Count("jobs_"+p.Mode, 1)
+		r.Count("schedules_executed", st.Executions)
 		for o, n := range st.Outcomes {
 			r.Count("outcome_"+o, n)
 		}
@@ -441,5 +464,5 @@ func TestVerifC01A(t *testing.T) {
 			r.Violate(key, fmt.Sprintf("%s nrec=%d buffer=%d workers=%d fullfilebatch=%v mode=%s policy=%d schedule=%v: %s", p.Format, p.NRec, p.Buf, p.Workers, p.FullBatch, p.Mode, p.Policy, v.Choices, parts[1]), q)
 		}
 	}
-	r.RequireNonVacuous("outcome_completed")
+	r.RequireNonVacuous("schedules_executed") // what the harness did; how the executions ended is the tree's answer
 }
